@@ -58,7 +58,11 @@ class MeshTet2(MeshTet1):
         return replace(M, doflocs=doflocs)
 
     def _uniform(self):
-        return MeshTet2.from_mesh(MeshTet1.from_mesh(self).refined())
+        # the children of a tetrahedron are numbered by the diagonal chosen
+        # in MeshTet1._uniform: let it carry the named subdomains
+        m = replace(MeshTet1.from_mesh(self),
+                    _subdomains=self._subdomains).refined()
+        return replace(MeshTet2.from_mesh(m), _subdomains=m._subdomains)
 
     def _adaptive(self, marked):
         return MeshTet2.from_mesh(MeshTet1.from_mesh(self).refined(marked))
